@@ -176,6 +176,7 @@ type counters struct {
 	f11Changes, f11ClaimRejected                                                            int
 	// restarts
 	reimports, reimpOpenPlain, reimpOpenIn, reimpOpenOut, reimpForgot, reimpSupply, reimpAtExpiryM1 int
+	bursts, burstRefunded                                                                           int
 	impPlainRefunded, impInRefunded, impOutRefunded, impClaimed, impTwice                           int
 	recreatedForgotten, claimForgotten                                                              int
 	// parameter-change shapes
@@ -192,6 +193,7 @@ type machine struct {
 	order     []string // denoms in parameter order (present assets)
 	prevTime  time.Time
 	installed bool
+	quiet     bool // inside a burst
 	n         counters
 	why       map[string]int // refused creates by predicted reason (reported with VERIF_C03_DEBUG)
 	// what a restart forgets: the htlc genesis carries only OPEN contracts, so closed ones are gone afterwards.
@@ -456,6 +458,9 @@ func (m *machine) modelBegin(h int64, now time.Time) (due []*contract) {
 			}
 		}
 	}
+	if len(due) > 100 {
+		m.n.burstRefunded++
+	}
 	if len(due) >= 2 {
 		m.n.multiRefund++
 	}
@@ -618,6 +623,23 @@ func (m *machine) Apply(op hOp) error {
 		return m.applyBlocks(op)
 	case "reimport":
 		return m.applyReimport(op)
+	case "burst":
+		if op.N < 1 || op.N > 400 {
+			return fmt.Errorf("bad replay op %+v", op)
+		}
+		m.quiet = true
+		for i := 0; i < op.N; i++ {
+			sec := sha256.Sum256([]byte(fmt.Sprintf("c03-burst-%d", i)))
+			one := hOp{Kind: "create", Sender: op.Sender, To: op.To, Coins: op.Coins, TimeLock: op.TimeLock, Secret: hex.EncodeToString(sec[:]),
+				HashLock: refHashLock(sec[:], 0)}
+			if err := m.applyCreate(one); err != nil {
+				m.quiet = false
+				return err
+			}
+		}
+		m.quiet = false
+		m.n.bursts++
+		return m.afterStep()
 	case "skip":
 		m.skipped[op.Note]++
 		return m.afterStep()
@@ -1109,6 +1131,9 @@ func (m *machine) applyBlocks(op hOp) error {
 }
 
 func (m *machine) afterStep() error {
+	if m.quiet { // inside a burst: the per-step clauses are evaluated at its end
+		return nil
+	}
 	if m.c03() {
 		return m.c03States()
 	}
@@ -1368,6 +1393,8 @@ func (m *machine) Classify() (bool, []string) {
 	add(n.overflows, "overflow")
 	add(n.f11Changes, "f11-incompatible-param-change")
 	add(n.reimports, "reimport")
+	add(n.bursts, "bucket-with->100-contracts")
+	add(n.burstRefunded, "bucket-with->100-contracts-expired")
 	add(n.reimpOpenPlain, "reimport-with-open-plain")
 	add(n.reimpOpenIn, "reimport-with-open-incoming")
 	add(n.reimpOpenOut, "reimport-with-open-outgoing")
